@@ -80,7 +80,10 @@ open_("X3", "C15", "a UNIQUE index over columns of different types listed out of
 
 # ---- open findings: B+tree (C10 / C11) ----
 for prop in ("C10", "C11"):
-    open_("D31c", prop, "with cells of ~400 bytes or more on 4 KiB pages (400-byte payloads, or 180-byte keys with 200-byte payloads) a rebalance leaves a separator that misroutes (a key smaller than the separator in its right subtree) after ~100 operations; trees of height 3 are reachable only with such cells", "O-structure", "payload_400", "findings/D31c-separator-misroutes-after-rebalance-with-400-byte-payloads.json")
+    fixed("D31c", prop, "0a4935a", "with cells of ~400 bytes or more on 4 KiB pages (400-byte payloads, or 180-byte keys with 200-byte payloads) a rebalance left a separator that misroutes (a key smaller than the separator in its right subtree) after ~100 operations - the tree had reached three levels", "O-structure", "findings/D31c-separator-misroutes-after-rebalance-with-400-byte-payloads.json")
+fixed("D31d", "C10", "0a4935a", "tree of three levels (600+ rows of 200 bytes): a removal that merges interior pages below the root took the new divider from the first cell of an interior child instead of the parent's separator; the root separator then misrouted lookups", "O-structure", "findings/D31d-interior-merge-above-leaf-parents-leaves-misrouting-root-separator.json")
+fixed("CS1", "C10", "8bdba18", "the page cache's eviction counter was a u16: after 65535 evictions a build with overflow checks panicked inside the pager (io/cache.rs:31)", "O-live:process-died", "findings/CS1-eviction-counter-overflow-panics-after-65535-evictions.json")
+fixed("CS1", "C12", "8bdba18", "small caches: the 65536th eviction panicked in builds with overflow checks (u16 counter in the page cache statistics)")
 
 open_("L1", "C11", "a CREATE TABLE inside a transaction that is rolled back (or dropped by a reopen) leaks the table's root page: it belongs to no tree and is not on the free list", "O-pages", "create_table_inside_session", "findings/L1-rolled-back-create-table-leaks-its-root-page.json")
 
